@@ -447,6 +447,28 @@ INSECURE_CTORS = set()
 def _names_along(f, l, depth=8):
     """names of the locals a value was copied through (a flag handed to a helper keeps the meaning its names give it)"""
     out = []
+    # through references and copies, as trace() follows them
+    cur = l
+    for _ in range(depth):
+        if cur is None:
+            break
+        n0 = f.local_name(cur) or f.locals[cur].get("param_name")
+        if n0:
+            out.append(n0)
+        d0 = f.single_def(cur)
+        if not d0 or d0[1] == "term":
+            break
+        rv0 = d0[2]
+        if rv0["k"] in ("ref", "rawptr"):
+            cur = rv0["p"][0]
+            if len(rv0["p"]) > 1:
+                out += [x[2:] for x in rv0["p"][1:] if isinstance(x, str) and x.startswith("f:")]
+        elif rv0["k"] in ("use", "cast") and "k" not in rv0["a"]:
+            pp = op_place(rv0["a"])
+            cur = pp[0] if pp else None
+            out += [x[2:] for x in (pp or [])[1:] if isinstance(x, str) and x.startswith("f:")]
+        else:
+            break
     seen = set()
     while l is not None and l not in seen and depth > 0:
         seen.add(l)
@@ -472,6 +494,11 @@ def _under_insecure(prog, f, bb):
         if l is None:
             continue
         desc = str(op_place(t["d"])) + str(f.trace(l)) + (f.local_name(l) or "") + " ".join(_names_along(f, l))
+        dsrc = f.single_def(l)
+        if dsrc and dsrc[1] != "term" and dsrc[2]["k"] == "use" and "k" not in dsrc[2]["a"]:
+            pb = op_place(dsrc[2]["a"])
+            if pb:
+                desc += " " + " ".join(_names_along(f, pb[0]))
         # closure upvars:  tls_insecure captured by reference
         for u in f.j.get("upvars", []):
             if u["name"].endswith("insecure") and str(u["p"][0]) in desc:
